@@ -573,6 +573,27 @@ pub struct SessionSpec {
     /// statements issued after the direct-API ops, right before the close
     pub stmts: Vec<Stmt>,
     pub end: End,
+    /// the other `Config` settings of this session (sub-check `reopen_config`); `None` = the defaults
+    #[serde(default)]
+    pub knobs: Option<Knobs>,
+}
+
+/// Settings of `grafeo_engine::Config` besides the durability mode. None of them may change what a persistent
+/// database holds after a reopen; every session of a history may use different ones.
+#[derive(Debug, Clone, Copy, PartialEq, Eq, Serialize, Deserialize)]
+pub struct Knobs {
+    /// `wal_flush_interval_ms` (must be > 0: `Config::validate`)
+    pub flush_interval_ms: u32,
+    /// `memory_limit` in KiB (0 = unset)
+    pub memory_limit_kib: u32,
+    pub threads: u8,
+    pub backward_edges: bool,
+    pub schema_constraints: bool,
+    pub factorized: bool,
+    pub adaptive: bool,
+    pub query_logging: bool,
+    /// spill directory: 0 = default (`<db>/spill`), 1 = a directory next to the database
+    pub spill: u8,
 }
 
 #[derive(Debug, Clone, PartialEq, Serialize, Deserialize)]
@@ -655,7 +676,39 @@ pub fn session_strategy(max_ops: usize, stmt_share: f64, with_checkpoint: bool) 
             ops,
             stmts: if with_stmts { stmts } else { Vec::new() },
             end,
+            knobs: None,
         })
+}
+
+fn knobs_strategy() -> impl Strategy<Value = Knobs> {
+    (
+        prop_oneof![Just(1u32), 1u32..50, Just(100u32), 1000u32..100_000, Just(u32::MAX)],
+        prop_oneof![3 => Just(0u32), 1 => Just(1u32), 2 => 64u32..4096, 2 => 65_536u32..4_000_000],
+        prop_oneof![Just(1u8), 1u8..=16, Just(255u8)],
+        any::<bool>(),
+        any::<bool>(),
+        any::<bool>(),
+        any::<bool>(),
+        any::<bool>(),
+        0u8..2,
+    )
+        .prop_map(|(flush_interval_ms, memory_limit_kib, threads, backward_edges, schema_constraints, factorized, adaptive, query_logging, spill)| Knobs {
+            flush_interval_ms,
+            memory_limit_kib,
+            threads,
+            backward_edges,
+            schema_constraints,
+            factorized,
+            adaptive,
+            query_logging,
+            spill,
+        })
+}
+
+/// Histories in which every session is opened with its own generated `Config` (durability mode and all other settings).
+pub fn config_history_strategy(max_sessions: usize, max_ops: usize) -> impl Strategy<Value = History> {
+    proptest::collection::vec((session_strategy(max_ops, 0.0, true), knobs_strategy()), 2..=max_sessions)
+        .prop_map(|v| History { sessions: v.into_iter().map(|(s, k)| SessionSpec { knobs: Some(k), ..s }).collect() })
 }
 
 pub fn history_strategy(max_sessions: usize, max_ops: usize, stmt_share: f64) -> impl Strategy<Value = History> {
@@ -689,6 +742,45 @@ pub fn open_db(path: &Path, mode: Mode) -> Result<GrafeoDB, Failure> {
     match r {
         Ok(db) => Ok(db),
         Err(e) => fail("c05/open-error", format!("open({mode:?}) failed: {e}")),
+    }
+}
+
+/// The configuration of a session: durability mode plus, when present, the other settings.
+pub fn config_for_session(path: &Path, s: &SessionSpec) -> Config {
+    let mut c = config_for(path, s.mode);
+    if let Some(k) = &s.knobs {
+        c.wal_flush_interval_ms = u64::from(k.flush_interval_ms.max(1));
+        if k.memory_limit_kib > 0 {
+            c = c.with_memory_limit(k.memory_limit_kib as usize * 1024);
+        }
+        c = c.with_threads(usize::from(k.threads.max(1)));
+        if !k.backward_edges {
+            c = c.without_backward_edges();
+        }
+        if k.schema_constraints {
+            c = c.with_schema_constraints();
+        }
+        if !k.factorized {
+            c = c.without_factorized_execution();
+        }
+        if !k.adaptive {
+            c = c.without_adaptive();
+        }
+        c.query_logging = k.query_logging;
+        if k.spill == 1 {
+            c = c.with_spill_path(path.with_extension("spill"));
+        }
+    }
+    c
+}
+
+fn open_session(path: &Path, s: &SessionSpec) -> Result<GrafeoDB, Failure> {
+    if s.knobs.is_none() {
+        return open_db(path, s.mode);
+    }
+    match guard("open", || GrafeoDB::with_config(config_for_session(path, s)))? {
+        Ok(db) => Ok(db),
+        Err(e) => fail("c05/open-error", format!("with_config({:?}, {:?}) failed: {e}", s.mode, s.knobs)),
     }
 }
 
@@ -1032,7 +1124,7 @@ pub fn check_history(h: &History) -> CaseResult {
     let mut no_stmt = m.clone();
     let mut stmts_changed = false;
     for (si, s) in h.sessions.iter().enumerate() {
-        let db = open_db(&path, s.mode)?;
+        let db = open_session(&path, s)?;
         let d = guard("dump", || dump_db(&db))?;
         if si > 0 {
             if d != m.dump() {
@@ -1141,6 +1233,8 @@ pub fn check_history(h: &History) -> CaseResult {
 
     let class = if any_stmt {
         "with-statements"
+    } else if h.sessions.iter().any(|s| s.knobs.is_some()) {
+        "direct/generated-config"
     } else if mid_checkpoint {
         "direct/mid-session-checkpoint"
     } else if h.sessions.len() > 1 {
@@ -1543,7 +1637,10 @@ pub fn run(r: &mut Run) {
               statements (known finding region; the rest is the strict region). Non-trivial = a reopen after >= 1 delete / property \
               overwrite / removal AND >= 1 checkpoint (explicit or close) followed by more writes. wal_manager: half of \
               the cases never rotate (strict), half rotate at 64 B..4 KiB (known-finding region); non-trivial = records \
-              logged after a checkpoint or reopen. Distinct by hash of the case."
+              logged after a checkpoint or reopen. reopen_config: the reopen histories (2-5 sessions, no statements) with every session \
+              opened under its own generated Config (wal_flush_interval_ms 1..u32::MAX, memory_limit unset / 1 KiB .. 4 GiB, threads 1..255, \
+              backward_edges, schema_constraints, factorized_execution, adaptive, query_logging, spill_path) besides the durability mode. \
+              Distinct by hash of the case."
         .into();
     r.assumptions.push("delete_node does not cascade to edges (LpgStore::delete_node note; DETACH is explicit)".into());
     r.assumptions.push("labels of a deleted or absent node are unobservable (ops are no-ops); properties are keyed by id in the store: a property written to an absent id stays hidden until an entity with that id is created, and a delete clears it (modelled the same way)".into());
@@ -1560,6 +1657,9 @@ pub fn run(r: &mut Run) {
     let (max_sessions, max_ops) = if thorough { (5, 60) } else { (5, 16) };
     r.subcheck("reopen", r.cases(1500, 40_000), move || history_strategy(max_sessions, max_ops, 0.05), check_history);
 
+    // every other `Config` setting, a different one per session
+    r.subcheck("reopen_config", r.cases(400, 10_000), move || config_history_strategy(max_sessions, max_ops), check_history);
+
     let max_steps = if thorough { 120 } else { 40 };
     r.subcheck("wal_manager", r.cases(4000, 150_000), move || wal_case_strategy(max_steps), check_wal_case);
 
@@ -1570,4 +1670,7 @@ pub fn run(r: &mut Run) {
         big.push(BigCase { writes: 60, checkpoint_after: 0, mode: Mode::Default });
     }
     r.enumerate("rotation_64mib", big, false, check_big);
+
+    // AsyncWalManager and AdaptiveFlusher (walx.rs)
+    crate::props::walx::run_c05(r);
 }
